@@ -4,6 +4,8 @@ use crate::gen::parts::*;
 use crate::util::*;
 use aws_smt_strings::character_sets::*;
 
+use super::c11::same_partition as same;
+
 fn build(p: &Ivs) -> CharPartition {
     let mut cp = CharPartition::new();
     for &(a, b) in p {
@@ -116,11 +118,8 @@ pub fn check_merge(rep: &mut Report, ps: &[Ivs], seed: u64) -> bool {
         bad!("merge-exact", "merge of {} = {} but the coarsest common refinement is {}", case, show(&got), show(&want));
     }
     let wit = witness(&want);
-    if merged.empty_complement() != (wit > MAXC) || (wit <= MAXC && merged.pick_complement() != wit) {
-        bad!("merge-witness", "merge of {}: complement witness {:x} (empty={}) but the least character outside all intervals is {:x}", case, merged.pick_complement(), merged.empty_complement(), wit);
-    }
-    if merged != build(&want) {
-        bad!("merge-exact", "merge of {} differs from the push-built refinement", case);
+    if merged.empty_complement() != (wit > MAXC) || (wit <= MAXC && (merged.pick_complement() > MAXC || class_of(&want, merged.pick_complement()).is_some())) {
+        bad!("merge-witness", "merge of {}: complement witness {:x} (empty={}) is not a character outside all intervals (the least such character is {:x})", case, merged.pick_complement(), merged.empty_complement(), wit);
     }
     true
 }
@@ -135,14 +134,14 @@ pub fn check_case(rep: &mut Report, ps: &[Ivs], seed: u64) {
         // commutativity, neutral element, idempotence
         let m1 = merge_partitions(&cps[0], &cps[1]);
         let m2 = merge_partitions(&cps[1], &cps[0]);
-        if m1 != m2 {
+        if !same(&m1, &m2) {
             rep.violation("merge-commutative", "merge-commutative", format!("merge is not commutative on {}", case), "merge", &case, seed);
         }
         let e = CharPartition::new();
-        if merge_partitions(&cps[0], &e) != cps[0] || merge_partitions(&e, &cps[0]) != cps[0] {
+        if !same(&merge_partitions(&cps[0], &e), &cps[0]) || !same(&merge_partitions(&e, &cps[0]), &cps[0]) {
             rep.violation("merge-neutral", "merge-neutral", format!("merge with the empty partition changes {}", show(&ps[0])), "merge", &case, seed);
         }
-        if merge_partitions(&cps[0], &cps[0]) != cps[0] {
+        if !same(&merge_partitions(&cps[0], &cps[0]), &cps[0]) {
             rep.violation("merge-idempotent", "merge-idempotent", format!("merge(p,p) != p for {}", show(&ps[0])), "merge", &case, seed);
         }
         rep.count("algebraic_law_probes", 4);
@@ -155,20 +154,20 @@ pub fn check_case(rep: &mut Report, ps: &[Ivs], seed: u64) {
             let rev: Vec<&CharPartition> = order.iter().rev().copied().collect();
             for o in [order, rev] {
                 rep.inc("order_independence_probes");
-                if merge_partition_list(o.into_iter()) != base {
+                if !same(&merge_partition_list(o.into_iter()), &base) {
                     rep.violation("merge-order", "merge-order", format!("merge_partition_list depends on the order for {}", case), "merge", &case, seed);
                     return;
                 }
             }
         }
         // empty list and neutral element inside the list
-        if merge_partition_list(std::iter::empty()) != CharPartition::new() {
+        if !same(&merge_partition_list(std::iter::empty()), &CharPartition::new()) {
             rep.violation("merge-neutral", "merge-neutral-list", "merge_partition_list of nothing is not the empty partition".to_string(), "merge", &case, seed);
         }
         let e = CharPartition::new();
         let mut with_e: Vec<&CharPartition> = cps.iter().collect();
         with_e.insert(1, &e);
-        if merge_partition_list(with_e.into_iter()) != base {
+        if !same(&merge_partition_list(with_e.into_iter()), &base) {
             rep.violation("merge-neutral", "merge-neutral-list", format!("adding the empty partition to the list changes the merge of {}", case), "merge", &case, seed);
         }
     }
